@@ -9,6 +9,12 @@
 //!   lib    = {key: PV}            (always a dictionary; object libs: null | {key: PV})
 //!   colour = [r, g, b, a] numbers
 //!
+//! Font info is dumped BY RUST FIELD (every public field of `FontInfo` and of its sub-structures is
+//! read by name and stored under its UFO 3 key) and cross-checked against the struct-level
+//! serialiser (`plist::to_value`); a disagreement (a new field, a rename tied to the wrong key)
+//! shows up as the entry "__serde_mismatch__".  `build_font` goes through the deserialiser
+//! (`plist::from_value`), so `dump(build(x)) = x` also ties Rust field names to keys.
+//!
 //! `dump_font` never fails: a part that cannot be dumped is replaced by {"__error__": "..."}.
 //! `build_font` returns Err(text) when the abstract font cannot be expressed through the API
 //! (invalid name, colour out of range, identifier rejected, store rejects the entry, ...).
@@ -530,16 +536,423 @@ pub fn info_to_json(fi: &FontInfo) -> (J, J) {
         None => J::Null,
         Some(gs) => J::Array(gs.iter().map(guideline_to_json).collect()),
     };
-    // serialise without the guidelines: their (de)serialiser refuses angles outside 0..=360 and
-    // they are dumped structurally above
+    // (1) by Rust field, (2) by the struct-level serialiser (without the guidelines: their
+    // serialiser refuses angles outside 0..=360 and they are dumped structurally above); the dump
+    // is (1), any disagreement with (2) is recorded under "__serde_mismatch__"
+    let mut errs = Vec::new();
+    let mut by_field = info_by_field(fi, &mut errs);
     let mut fi2 = fi.clone();
     fi2.guidelines = None;
-    let info = match plist::to_value(&fi2) {
-        Ok(plist::Value::Dictionary(d)) => dict_to_json(&d),
-        Ok(other) => json!({"__error__": format!("font info serialised to a non-dictionary: {:?}", other)}),
-        Err(e) => json!({"__error__": format!("font info does not serialise: {}", e)}),
-    };
+    match plist::to_value(&fi2) {
+        Ok(plist::Value::Dictionary(d)) => {
+            let mut keys: Vec<String> = d.keys().chain(by_field.keys()).cloned().collect();
+            keys.sort();
+            keys.dedup();
+            for k in keys {
+                let same = match (d.get(&k), by_field.get(&k)) {
+                    (Some(a), Some(b)) => pv_same(a, b),
+                    _ => false,
+                };
+                if !same {
+                    errs.push(format!("{}: field-wise {:?} / serialised {:?}", k, by_field.get(&k), d.get(&k)));
+                }
+            }
+        }
+        Ok(other) => errs.push(format!("font info serialised to a non-dictionary: {:?}", other)),
+        Err(e) => errs.push(format!("font info does not serialise: {}", e)),
+    }
+    if !errs.is_empty() {
+        by_field.insert(
+            "__serde_mismatch__".into(),
+            plist::Value::Array(errs.into_iter().map(plist::Value::String).collect()),
+        );
+    }
+    let info = dict_to_json(&by_field);
     (info, guidelines)
+}
+
+/// Font info by RUST FIELD: every public field of `FontInfo` is read by its Rust name and stored
+/// under the key the UFO 3 specification gives it (pairs written out below).  A serde rename that
+/// ties a field to the wrong key is therefore visible: in `dump(build(x)) = x` (build goes through
+/// the deserialiser) and in `read_ufo(saved) = dump(load(saved))`.  Values of sub-structures are
+/// produced by their own serialisers; "integer or float" numbers are exact (`Real`).
+fn info_by_field(fi: &FontInfo, errs: &mut Vec<String>) -> plist::Dictionary {
+    let mut m = plist::Dictionary::new();
+    macro_rules! f {
+        ($key:literal, $field:ident) => {
+            if let Some(x) = &fi.$field {
+                match plist::to_value(x) {
+                    Ok(v) => {
+                        m.insert($key.into(), v);
+                    }
+                    Err(e) => errs.push(format!("{}: {}", $key, e)),
+                }
+            }
+        };
+    }
+    f!("ascender", ascender);
+    f!("capHeight", cap_height);
+    f!("copyright", copyright);
+    f!("descender", descender);
+    f!("familyName", family_name);
+    f!("italicAngle", italic_angle);
+    f!("macintoshFONDFamilyID", macintosh_fond_family_id);
+    f!("macintoshFONDName", macintosh_fond_name);
+    f!("note", note);
+    f!("openTypeGaspRangeRecords", open_type_gasp_range_records);
+    f!("openTypeHeadCreated", open_type_head_created);
+    f!("openTypeHeadFlags", open_type_head_flags);
+    f!("openTypeHeadLowestRecPPEM", open_type_head_lowest_rec_ppem);
+    f!("openTypeHheaAscender", open_type_hhea_ascender);
+    f!("openTypeHheaCaretOffset", open_type_hhea_caret_offset);
+    f!("openTypeHheaCaretSlopeRise", open_type_hhea_caret_slope_rise);
+    f!("openTypeHheaCaretSlopeRun", open_type_hhea_caret_slope_run);
+    f!("openTypeHheaDescender", open_type_hhea_descender);
+    f!("openTypeHheaLineGap", open_type_hhea_line_gap);
+    f!("openTypeNameCompatibleFullName", open_type_name_compatible_full_name);
+    f!("openTypeNameDescription", open_type_name_description);
+    f!("openTypeNameDesigner", open_type_name_designer);
+    f!("openTypeNameDesignerURL", open_type_name_designer_url);
+    f!("openTypeNameLicense", open_type_name_license);
+    f!("openTypeNameLicenseURL", open_type_name_license_url);
+    f!("openTypeNameManufacturer", open_type_name_manufacturer);
+    f!("openTypeNameManufacturerURL", open_type_name_manufacturer_url);
+    f!("openTypeNamePreferredFamilyName", open_type_name_preferred_family_name);
+    f!("openTypeNamePreferredSubfamilyName", open_type_name_preferred_subfamily_name);
+    f!("openTypeNameRecords", open_type_name_records);
+    f!("openTypeNameSampleText", open_type_name_sample_text);
+    f!("openTypeNameUniqueID", open_type_name_unique_id);
+    f!("openTypeNameVersion", open_type_name_version);
+    f!("openTypeNameWWSFamilyName", open_type_name_wws_family_name);
+    f!("openTypeNameWWSSubfamilyName", open_type_name_wws_subfamily_name);
+    f!("openTypeOS2CodePageRanges", open_type_os2_code_page_ranges);
+    f!("openTypeOS2FamilyClass", open_type_os2_family_class);
+    f!("openTypeOS2Panose", open_type_os2_panose);
+    f!("openTypeOS2Selection", open_type_os2_selection);
+    f!("openTypeOS2StrikeoutPosition", open_type_os2_strikeout_position);
+    f!("openTypeOS2StrikeoutSize", open_type_os2_strikeout_size);
+    f!("openTypeOS2SubscriptXOffset", open_type_os2_subscript_x_offset);
+    f!("openTypeOS2SubscriptXSize", open_type_os2_subscript_x_size);
+    f!("openTypeOS2SubscriptYOffset", open_type_os2_subscript_y_offset);
+    f!("openTypeOS2SubscriptYSize", open_type_os2_subscript_y_size);
+    f!("openTypeOS2SuperscriptXOffset", open_type_os2_superscript_x_offset);
+    f!("openTypeOS2SuperscriptXSize", open_type_os2_superscript_x_size);
+    f!("openTypeOS2SuperscriptYOffset", open_type_os2_superscript_y_offset);
+    f!("openTypeOS2SuperscriptYSize", open_type_os2_superscript_y_size);
+    f!("openTypeOS2Type", open_type_os2_type);
+    f!("openTypeOS2TypoAscender", open_type_os2_typo_ascender);
+    f!("openTypeOS2TypoDescender", open_type_os2_typo_descender);
+    f!("openTypeOS2TypoLineGap", open_type_os2_typo_line_gap);
+    f!("openTypeOS2UnicodeRanges", open_type_os2_unicode_ranges);
+    f!("openTypeOS2VendorID", open_type_os2_vendor_id);
+    f!("openTypeOS2WeightClass", open_type_os2_weight_class);
+    f!("openTypeOS2WidthClass", open_type_os2_width_class);
+    f!("openTypeOS2WinAscent", open_type_os2_win_ascent);
+    f!("openTypeOS2WinDescent", open_type_os2_win_descent);
+    f!("openTypeVheaCaretOffset", open_type_vhea_caret_offset);
+    f!("openTypeVheaCaretSlopeRise", open_type_vhea_caret_slope_rise);
+    f!("openTypeVheaCaretSlopeRun", open_type_vhea_caret_slope_run);
+    f!("openTypeVheaVertTypoAscender", open_type_vhea_vert_typo_ascender);
+    f!("openTypeVheaVertTypoDescender", open_type_vhea_vert_typo_descender);
+    f!("openTypeVheaVertTypoLineGap", open_type_vhea_vert_typo_line_gap);
+    f!("postscriptBlueFuzz", postscript_blue_fuzz);
+    f!("postscriptBlueScale", postscript_blue_scale);
+    f!("postscriptBlueShift", postscript_blue_shift);
+    f!("postscriptBlueValues", postscript_blue_values);
+    f!("postscriptDefaultCharacter", postscript_default_character);
+    f!("postscriptDefaultWidthX", postscript_default_width_x);
+    f!("postscriptFamilyBlues", postscript_family_blues);
+    f!("postscriptFamilyOtherBlues", postscript_family_other_blues);
+    f!("postscriptFontName", postscript_font_name);
+    f!("postscriptForceBold", postscript_force_bold);
+    f!("postscriptFullName", postscript_full_name);
+    f!("postscriptIsFixedPitch", postscript_is_fixed_pitch);
+    f!("postscriptNominalWidthX", postscript_nominal_width_x);
+    f!("postscriptOtherBlues", postscript_other_blues);
+    f!("postscriptSlantAngle", postscript_slant_angle);
+    f!("postscriptStemSnapH", postscript_stem_snap_h);
+    f!("postscriptStemSnapV", postscript_stem_snap_v);
+    f!("postscriptUnderlinePosition", postscript_underline_position);
+    f!("postscriptUnderlineThickness", postscript_underline_thickness);
+    f!("postscriptUniqueID", postscript_unique_id);
+    f!("postscriptWeightName", postscript_weight_name);
+    f!("postscriptWindowsCharacterSet", postscript_windows_character_set);
+    f!("styleMapFamilyName", style_map_family_name);
+    f!("styleMapStyleName", style_map_style_name);
+    f!("styleName", style_name);
+    f!("trademark", trademark);
+    f!("versionMajor", version_major);
+    f!("versionMinor", version_minor);
+    f!("woffMajorVersion", woff_major_version);
+    f!("woffMetadataCopyright", woff_metadata_copyright);
+    f!("woffMetadataCredits", woff_metadata_credits);
+    f!("woffMetadataDescription", woff_metadata_description);
+    f!("woffMetadataExtensions", woff_metadata_extensions);
+    f!("woffMetadataLicense", woff_metadata_license);
+    f!("woffMetadataLicensee", woff_metadata_licensee);
+    f!("woffMetadataTrademark", woff_metadata_trademark);
+    f!("woffMetadataUniqueID", woff_metadata_unique_id);
+    f!("woffMetadataVendor", woff_metadata_vendor);
+    f!("woffMinorVersion", woff_minor_version);
+    f!("xHeight", x_height);
+    f!("year", year);
+    if let Some(u) = &fi.units_per_em {
+        m.insert("unitsPerEm".into(), plist::Value::Real(u.as_f64()));
+    }
+    // sub-structures, again by Rust field (replacing what their serialisers produced above)
+    use norad::fontinfo as nf;
+    use plist::Value as V;
+    fn st(x: &str) -> V {
+        V::String(x.to_string())
+    }
+    fn int(x: u32) -> V {
+        V::Integer((x as i64).into())
+    }
+    fn put_os(d: &mut plist::Dictionary, k: &str, x: &Option<String>) {
+        if let Some(x) = x {
+            d.insert(k.into(), st(x));
+        }
+    }
+    fn put_dir(d: &mut plist::Dictionary, x: &Option<nf::WoffAttributeDirection>) {
+        match x {
+            Some(nf::WoffAttributeDirection::LeftToRight) => {
+                d.insert("dir".into(), st("ltr"));
+            }
+            Some(nf::WoffAttributeDirection::RightToLeft) => {
+                d.insert("dir".into(), st("rtl"));
+            }
+            None => {}
+        }
+    }
+    fn text_records(xs: &[nf::WoffMetadataTextRecord]) -> V {
+        V::Array(
+            xs.iter()
+                .map(|r| {
+                    let mut d = plist::Dictionary::new();
+                    d.insert("text".into(), st(&r.text));
+                    put_os(&mut d, "language", &r.language);
+                    put_dir(&mut d, &r.dir);
+                    put_os(&mut d, "class", &r.class);
+                    V::Dictionary(d)
+                })
+                .collect(),
+        )
+    }
+    fn name_records(xs: &[nf::WoffMetadataExtensionNameRecord]) -> V {
+        V::Array(
+            xs.iter()
+                .map(|r| {
+                    let mut d = plist::Dictionary::new();
+                    d.insert("text".into(), st(&r.text));
+                    put_os(&mut d, "language", &r.language);
+                    put_dir(&mut d, &r.dir);
+                    put_os(&mut d, "class", &r.class);
+                    V::Dictionary(d)
+                })
+                .collect(),
+        )
+    }
+    fn value_records(xs: &[nf::WoffMetadataExtensionValueRecord]) -> V {
+        V::Array(
+            xs.iter()
+                .map(|r| {
+                    let mut d = plist::Dictionary::new();
+                    d.insert("text".into(), st(&r.text));
+                    put_os(&mut d, "language", &r.language);
+                    put_dir(&mut d, &r.dir);
+                    put_os(&mut d, "class", &r.class);
+                    V::Dictionary(d)
+                })
+                .collect(),
+        )
+    }
+    if let Some(g) = &fi.open_type_gasp_range_records {
+        let v = g
+            .iter()
+            .map(|r| {
+                let mut d = plist::Dictionary::new();
+                d.insert("rangeMaxPPEM".into(), int(r.range_max_ppem));
+                d.insert(
+                    "rangeGaspBehavior".into(),
+                    V::Array(
+                        r.range_gasp_behavior
+                            .iter()
+                            .map(|b| {
+                                int(match b {
+                                    nf::GaspBehavior::Gridfit => 0,
+                                    nf::GaspBehavior::DoGray => 1,
+                                    nf::GaspBehavior::SymmetricGridfit => 2,
+                                    nf::GaspBehavior::SymmetricSmoothing => 3,
+                                })
+                            })
+                            .collect(),
+                    ),
+                );
+                V::Dictionary(d)
+            })
+            .collect();
+        m.insert("openTypeGaspRangeRecords".into(), V::Array(v));
+    }
+    if let Some(n) = &fi.open_type_name_records {
+        let v = n
+            .iter()
+            .map(|r| {
+                let mut d = plist::Dictionary::new();
+                d.insert("nameID".into(), int(r.name_id));
+                d.insert("platformID".into(), int(r.platform_id));
+                d.insert("encodingID".into(), int(r.encoding_id));
+                d.insert("languageID".into(), int(r.language_id));
+                d.insert("string".into(), st(&r.string));
+                V::Dictionary(d)
+            })
+            .collect();
+        m.insert("openTypeNameRecords".into(), V::Array(v));
+    }
+    if let Some(c) = &fi.open_type_os2_family_class {
+        m.insert("openTypeOS2FamilyClass".into(), V::Array(vec![int(c.class_id as u32), int(c.subclass_id as u32)]));
+    }
+    if let Some(p) = &fi.open_type_os2_panose {
+        m.insert(
+            "openTypeOS2Panose".into(),
+            V::Array(vec![
+                int(p.family_type),
+                int(p.serif_style),
+                int(p.weight),
+                int(p.proportion),
+                int(p.contrast),
+                int(p.stroke_variation),
+                int(p.arm_style),
+                int(p.letterform),
+                int(p.midline),
+                int(p.x_height),
+            ]),
+        );
+    }
+    if let Some(w) = &fi.open_type_os2_width_class {
+        m.insert("openTypeOS2WidthClass".into(), int(*w as u8 as u32));
+    }
+    if let Some(w) = &fi.postscript_windows_character_set {
+        m.insert("postscriptWindowsCharacterSet".into(), int(*w as u8 as u32));
+    }
+    if let Some(x) = &fi.style_map_style_name {
+        m.insert(
+            "styleMapStyleName".into(),
+            st(match x {
+                nf::StyleMapStyle::Regular => "regular",
+                nf::StyleMapStyle::Italic => "italic",
+                nf::StyleMapStyle::Bold => "bold",
+                nf::StyleMapStyle::BoldItalic => "bold italic",
+            }),
+        );
+    }
+    if let Some(x) = &fi.woff_metadata_copyright {
+        let mut d = plist::Dictionary::new();
+        d.insert("text".into(), text_records(&x.text));
+        m.insert("woffMetadataCopyright".into(), V::Dictionary(d));
+    }
+    if let Some(x) = &fi.woff_metadata_trademark {
+        let mut d = plist::Dictionary::new();
+        d.insert("text".into(), text_records(&x.text));
+        m.insert("woffMetadataTrademark".into(), V::Dictionary(d));
+    }
+    if let Some(x) = &fi.woff_metadata_credits {
+        let v = x
+            .credits
+            .iter()
+            .map(|c| {
+                let mut d = plist::Dictionary::new();
+                d.insert("name".into(), st(&c.name));
+                put_os(&mut d, "url", &c.url);
+                put_os(&mut d, "role", &c.role);
+                put_dir(&mut d, &c.dir);
+                put_os(&mut d, "class", &c.class);
+                V::Dictionary(d)
+            })
+            .collect();
+        let mut d = plist::Dictionary::new();
+        d.insert("credits".into(), V::Array(v));
+        m.insert("woffMetadataCredits".into(), V::Dictionary(d));
+    }
+    if let Some(x) = &fi.woff_metadata_description {
+        let mut d = plist::Dictionary::new();
+        put_os(&mut d, "url", &x.url);
+        d.insert("text".into(), text_records(&x.text));
+        m.insert("woffMetadataDescription".into(), V::Dictionary(d));
+    }
+    if let Some(x) = &fi.woff_metadata_license {
+        let mut d = plist::Dictionary::new();
+        put_os(&mut d, "url", &x.url);
+        put_os(&mut d, "id", &x.id);
+        d.insert("text".into(), text_records(&x.text));
+        m.insert("woffMetadataLicense".into(), V::Dictionary(d));
+    }
+    if let Some(x) = &fi.woff_metadata_licensee {
+        let mut d = plist::Dictionary::new();
+        d.insert("name".into(), st(&x.name));
+        put_dir(&mut d, &x.dir);
+        put_os(&mut d, "class", &x.class);
+        m.insert("woffMetadataLicensee".into(), V::Dictionary(d));
+    }
+    if let Some(x) = &fi.woff_metadata_unique_id {
+        let mut d = plist::Dictionary::new();
+        d.insert("id".into(), st(&x.id));
+        m.insert("woffMetadataUniqueID".into(), V::Dictionary(d));
+    }
+    if let Some(x) = &fi.woff_metadata_vendor {
+        let mut d = plist::Dictionary::new();
+        d.insert("name".into(), st(&x.name));
+        d.insert("url".into(), st(&x.url));
+        put_dir(&mut d, &x.dir);
+        put_os(&mut d, "class", &x.class);
+        m.insert("woffMetadataVendor".into(), V::Dictionary(d));
+    }
+    if let Some(x) = &fi.woff_metadata_extensions {
+        let v = x
+            .iter()
+            .map(|e| {
+                let mut d = plist::Dictionary::new();
+                put_os(&mut d, "id", &e.id);
+                d.insert("names".into(), name_records(&e.names));
+                let items = e
+                    .items
+                    .iter()
+                    .map(|i| {
+                        let mut id = plist::Dictionary::new();
+                        put_os(&mut id, "id", &i.id);
+                        id.insert("names".into(), name_records(&i.names));
+                        id.insert("values".into(), value_records(&i.values));
+                        V::Dictionary(id)
+                    })
+                    .collect();
+                d.insert("items".into(), V::Array(items));
+                V::Dictionary(d)
+            })
+            .collect();
+        m.insert("woffMetadataExtensions".into(), V::Array(v));
+    }
+    m
+}
+
+/// equality of the field-wise dump and the struct-level serialisation, up to the rounding of the
+/// integer-or-float serialisers (a value within f64::EPSILON of an integer is written as integer)
+fn pv_same(a: &plist::Value, b: &plist::Value) -> bool {
+    fn as_num(v: &plist::Value) -> Option<f64> {
+        match v {
+            plist::Value::Integer(i) => i.as_signed().map(|x| x as f64).or_else(|| i.as_unsigned().map(|x| x as f64)),
+            plist::Value::Real(r) => Some(*r),
+            _ => None,
+        }
+    }
+    match (a, b) {
+        (plist::Value::Array(x), plist::Value::Array(y)) => x.len() == y.len() && x.iter().zip(y).all(|(p, q)| pv_same(p, q)),
+        (plist::Value::Dictionary(x), plist::Value::Dictionary(y)) => {
+            x.len() == y.len() && x.iter().all(|(k, p)| y.get(k).map(|q| pv_same(p, q)).unwrap_or(false))
+        }
+        _ => match (as_num(a), as_num(b)) {
+            (Some(x), Some(y)) => x == y || (x - y).abs() <= 2.0 * f64::EPSILON * x.abs().max(y.abs()).max(1.0),
+            _ => a == b,
+        },
+    }
 }
 
 pub fn json_to_info(info: &J, guidelines: &J) -> Result<FontInfo, String> {
